@@ -111,6 +111,17 @@ func SentinelTok(exec uint64, i int) uint64 { return tag(exec, Mix(uint64(i)+0x7
 func FallbackTok(exec uint64, fn, i int) uint64 {
 	return tag(exec, Mix(uint64(fn)*131+uint64(i)+0xFB00))
 }
+
+// ConstFBTok is the token of a fallback value that the program writes as a
+// constant (the same in every execution).
+func ConstFBTok(name string, fn, i int) uint64 {
+	h := uint64(0)
+	for _, c := range name {
+		h = h*131 + uint64(c)
+	}
+	return tag(0x7F, Mix(h^(uint64(fn)*131+uint64(i)+0xCFB0)))
+}
+
 func ElemTok(exec uint64, slot, i int) uint64 {
 	return tag(exec, Mix(uint64(slot)*100003+uint64(i)+0xE1E))
 }
